@@ -45,9 +45,9 @@ func init() {
 			{Pkg: "bkld", Func: "HarnessC15_maps", Tiers: "qt", Covers: []string{"diff.same", "diff.changed"},
 				Bound: "quick: {a: scalar|flat map|[], b: scalar?} on both sides; thorough: all pairs of maps of depth<=2 over keys {a,b}"},
 			{Pkg: "bkld", Func: "HarnessC15_lists", Tiers: "qt", Covers: []string{"diff.same", "diff.changed"},
-				Bound: "a list under one key on both sides, length<=2 (quick) / 3 (thorough), entries scalar | {a} | {a,b}; every equality pattern among the entries is solver-decided"},
+				Bound: "a list under one key on both sides, length<=2, entries scalar | {a} | {a,b}; thorough adds base<=2 / target<=3 with entries scalar | {a}; every equality pattern among the entries is solver-decided; string leaves include \"1\" and \"true\" (texts that print like an int / a bool)"},
 			{Pkg: "bkld", Func: "HarnessC15_longlists", Tiers: "qt", Covers: []string{"diff.same", "diff.changed"},
-				Bound: "lists of symbolic-kind scalars: base <=2 (thorough 3), target <=4 (thorough 5) entries; every equality pattern among the entries (kept, dropped, repeated, reordered, appended, duplicates of base entries)"},
+				Bound: "lists of symbolic-kind scalars: base <=2 (thorough 3), target <=4 entries; every equality pattern among the entries (kept, dropped, repeated, reordered, appended, duplicates of base entries)"},
 		},
 		Assume:  toolAssume,
 		Outside: "deeper trees, longer lists; file formats and the I/O glue of cmd/bkld/main.go (diffDoc is called directly; base and target are $-free so Document.Process is the identity)",
@@ -58,7 +58,7 @@ func init() {
 			{Pkg: "bkli", Func: "HarnessC16_self", Tiers: "qt", Covers: []string{"c16.checked"},
 				Bound: "intersect(x,x)=x for maps of depth<=3, keys {a,b}, lists<=2"},
 			{Pkg: "bkli", Func: "HarnessC16_pair", Tiers: "qt", Covers: []string{"c16.checked", "c16.roundtrip"},
-				Bound: "two inputs; quick: {a: scalar|flat map|list<=1, b: scalar?}; thorough: maps of depth<=2, lists<=1; result vs functional model, commonality, maximality, argument order, and bkld+bkl round trip per input"},
+				Bound: "two inputs; quick: {a: scalar|flat map|list<=1, b: scalar?}; thorough: a map of depth<=2 (lists: [] only) against a flat map, both argument orders; result vs functional model, commonality, maximality, argument order, and bkld+bkl round trip per input"},
 			{Pkg: "bkli", Func: "HarnessC16_lists", Tiers: "qt", Covers: []string{"c16.checked", "c16.roundtrip"},
 				Bound: "two inputs {l: list of <=2 (thorough 3) symbolic-kind scalars, k}: every pattern of shared, repeated and reordered entries; model, commonality, maximality, bkld round trip per input (argument-order assertion withheld only inside region C16-R3)"},
 			{Pkg: "bkli", Func: "HarnessC16_three", Tiers: "qt", Covers: []string{"c16.checked", "c16.roundtrip"},
@@ -71,7 +71,7 @@ func init() {
 		ID: "C17",
 		Harnesses: []harnessSpec{
 			{Pkg: "bklr", Func: "HarnessC17_required", Tiers: "qt", Covers: []string{"req.empty", "req.nonempty"},
-				Bound: "one document, maps over {a,b} of depth<=2 with lists<=2 (quick) / depth<=3 with lists<=1 (thorough); leaves: $required, any scalar (thorough: 7 or a fixed string), or one 9-byte string that the solver may make equal to the marker ($-free otherwise)"},
+				Bound: "one document, maps over {a,b} of depth<=2 with lists<=2 (quick) / depth<=3 with lists<=1 (thorough); leaves: $required, any scalar (thorough: 7), or one 9-byte string that the solver may make equal to the marker ($-free otherwise)"},
 			{Pkg: "bklr", Func: "HarnessC17_listmarkers", Tiers: "qt", Covers: []string{"listmarkers.checked"},
 				Bound: "a lower-layer list of 1-3 entries, any subset of them markers, at the top or nested, with an upper layer supplying a list there: the layered document is the base's other entries + the upper's, bklr reports nothing, bkl accepts"},
 			{Pkg: "bklr", Func: "HarnessC17_nested", Tiers: "qt", Covers: []string{"req.empty", "req.nonempty"},
@@ -200,15 +200,15 @@ func init() {
 		ID: "C12",
 		Harnesses: []harnessSpec{
 			{Pkg: "bkl", Func: "HarnessC12_doc", Tiers: "qt", Covers: []string{"repeat.zero", "repeat.some", "repeat.listdoc", "repeat.override"},
-				Bound: "document-level $repeat: n with n a symbolic int in [-1,5] (the loop bound is solver-decided), map and list documents, count supplied by an upper layer; body uses $repeat as value, in an interpolation and in a key"},
+				Bound: "document-level $repeat: n with n a symbolic int in [-1,5] (thorough [-1,12]) (the loop bound is solver-decided), map and list documents, count supplied by an upper layer; body uses $repeat as value, in an interpolation and in a key"},
 			{Pkg: "bkl", Func: "HarnessC12_nested", Tiers: "qt", Covers: []string{"nested.list", "nested.map"},
-				Bound: "$repeat: n (n in [-1,4]) inside a list entry and inside a map entry with an interpolated key"},
+				Bound: "$repeat: n (n in [-1,4], thorough [-1,10]) inside a list entry and inside a map entry with an interpolated key"},
 			{Pkg: "bkl", Func: "HarnessC12_named", Tiers: "qt", Covers: []string{"named.checked"},
-				Bound: "named counts x,y each in [-1,2] (quick) / [-1,3] plus optional third name (thorough): product, order, bindings"},
+				Bound: "named counts x,y each in [-1,2] (quick) / [-1,4] plus optional third name (thorough): product, order, bindings"},
 			{Pkg: "bkl", Func: "HarnessC12_scopes", Tiers: "qt", Covers: []string{"scopes.doc", "scopes.list", "scopes.map"},
-				Bound: "a repeat (n in [-1,2]) at document, list-entry or map-entry level around an inner list-entry or map-entry repeat (m in [-1,2]); the outer index is used in a key evaluated before and one evaluated after the inner repeat"},
+				Bound: "a repeat (n in [-1,2], thorough [-1,4]) at document, list-entry or map-entry level around an inner list-entry or map-entry repeat (m in [-1,2], thorough [-1,3]); the outer index is used in a key evaluated before and one evaluated after the inner repeat"},
 			{Pkg: "bkl", Func: "HarnessC12_badcount", Tiers: "qt", Covers: []string{"badcount.checked"},
-				Bound: "any non-integer scalar as count at document, list-entry and map-entry level"},
+				Bound: "any non-integer scalar as count at document, list-entry and map-entry level, and as one of two or three named counts next to good counts of any value (0 included)"},
 		},
 		Assume:  pipeAssume,
 		Outside: "counts > 5; more than 3 names; null counts (dropped like any null entry)",
@@ -236,7 +236,7 @@ func init() {
 			{Pkg: "bkl", Func: "HarnessC14_args", Tiers: "qt", Covers: []string{"transform.valid", "transform.invalid"},
 				Bound: "one of join:/prefix:/tolist: with ANY argument of 0-2 bytes over {',','-','=','p','.',' '} (the empty argument included), given as string or one-element list, on a list, a map, a scalar, a list of maps, []; result vs reference semantics, invalid operand kinds rejected"},
 			{Pkg: "bkl", Func: "HarnessC14_base64", Tiers: "qt", Covers: []string{"base64.checked"},
-				Bound: "$encode: base64 of EVERY $-free byte string of <= 4 (quick) / 6 (thorough) bytes equals an independent RFC 4648 encoder (bit-level formula over symbolic bytes)"},
+				Bound: "$encode: base64 of EVERY $-free byte string of <= 6 (quick) / 8 (thorough) bytes equals an independent RFC 4648 encoder (bit-level formula over symbolic bytes)"},
 			{Pkg: "bkl", Func: "HarnessC14_codecs", Tiers: "qt", Covers: []string{"codec.sha256", "codec.base64", "codec.roundtrip"},
 				Bound: "8 concrete values: sha256 and base64 against crypto/sha256 and encoding/base64; $decode(f, $encode(f, v)) = v for json, yaml, toml"},
 			{Pkg: "bkl", Func: "HarnessC14_badargs", Tiers: "qt", Covers: []string{"badargs.checked"},
@@ -253,7 +253,7 @@ func init() {
 		ID: "C02",
 		Harnesses: []harnessSpec{
 			{Pkg: "bkl", Func: "HarnessC02_stream", Tiers: "qt", Covers: []string{"stream.layered", "stream.multi", "stream.rejected"},
-				Bound: "base stream of 1-2 (quick) / 1-3 (thorough) documents (a: any scalar | map [| absent, b]), a further layer of 1-2 documents and an optional probing layer of 1 document; layer documents override/add scalars, maps and lists of maps and carry no $match, $match: null | {} | {a: s} | {a: s, $invert: true}, or $replace: true; parent links as file.setParents sets them; after every MergeDocument: count, order and content equal the functional stream model (private copies), and no two documents share a map or list"},
+				Bound: "base stream of 1-2 documents (a: any scalar | map; thorough: 1-3 documents, a may be absent), a further layer of 1-2 documents (thorough, 3 base documents: 1) and an optional probing layer of 1 document (full menu in thorough when the layer before has one document); quick also 3 base documents x 2 layers x 1-2 documents with reduced menus; layer documents override/add scalars, maps (also the empty map) and lists of maps and carry no $match, $match: null | {} | {a: s} | {a: s, $invert: true} | {a: {x: 1}} | {a: {x: 1, $invert: true}}, or $replace: true; pattern hits decided by the reference matcher; parent links as file.setParents sets them; after every MergeDocument: count, order and content equal the functional stream model (private copies), and no two documents share a map or list"},
 		},
 		Assume:  pipeAssume,
 		Outside: "4 base documents, 3 further layers, duplicate document IDs, file loading itself (C03)",
@@ -280,7 +280,7 @@ func init() {
 			{Pkg: "bkl", Func: "HarnessC19_soup", Tiers: "qt", Covers: []string{"soup.output", "soup.error"},
 				Bound: "the C08 directive soup (13 directive keys x 9 argument kinds x 7 positions, alone or as upper of two layers; thorough: plus a second directive map in the same document): two successive outputs agree and the stored documents are unchanged by them"},
 			{Pkg: "bkl", Func: "HarnessC19_history", Tiers: "qt", Covers: []string{"history.repeat", "history.merge", "history.documents", "history.withoutput"},
-				Bound: "1-2 documents from 10 families ($merge, $replace + $merge: string, document $repeat, $encode, $output true/false + list $repeat, interpolation + null, plain, forward cross-document $replace, its target holding a nested $merge, $merge maps inside a list-valued key), then 3 (quick) / 4 (thorough) calls each chosen from {OutputDocuments, MergeDocument(next layer: add key | change value | change what a nested $merge resolves to | $match: null append), Documents}; a twin parser receives the same merges and is never asked for output"},
+				Bound: "1-2 documents from 13 families (a list-rooted document with a cross-document $merge next to other keys, two entries of one map evaluating to the same key (interpolated key vs literal; repeated map entry vs literal), $merge, $replace + $merge: string, document $repeat, $encode, $output true/false + list $repeat, interpolation + null, plain, forward cross-document $replace, its target holding a nested $merge, $merge maps inside a list-valued key), then 3 (quick) / 4 (thorough) calls each chosen from {OutputDocuments, MergeDocument(next layer: add key | change value | change what a nested $merge resolves to | $match: null append), Documents}; a twin parser receives the same merges and is never asked for output; successive outputs run under different global iteration policies of the evaluator's map ranges (insertion, reversed, rotated); leaves symbolic when there is one document"},
 		},
 		Assume:  pipeAssume,
 		Outside: "format-specific Output/OutputToWriter/OutputToFile (they add only the codec to OutputDocuments); MergeFileLayers (C03); more than 4 calls",
@@ -295,7 +295,7 @@ func init() {
 		ID: "C03",
 		Harnesses: []harnessSpec{
 			{Pkg: "bkl", Func: "HarnessC03_chain", Tiers: "qt", Samples: 16, Covers: []string{"chain.accepted", "chain.rejected"},
-				Bound: "chains a, a.b, a.b.c (thorough: a.b.c.d) - or names that are string-suffixes of one another with one extension (a, a.a, a.a.a; b, a.b, c.a.b) - with 1-3 (4) layers, each file under any supported extension (quick: two per file, rotating), contents {v: any scalar, k_i: i}; the same contents as x, y, z wired by $parent; both equal the explicit base-first MergeDocument fold (outputs and error status)"},
+				Bound: "chains a, a.b, a.b.c (thorough: a.b.c.d) - or names that are string-suffixes of one another with one extension (a, a.a, a.a.a; b, a.b, c.a.b) - with 1-3 (4) layers, each file under any supported extension (quick: two per file, rotating; thorough: all for chains up to 2, at depth 3 all for the name chain and two for the $parent-wired twin, two at depth 4), contents {v: any scalar, k_i: i}; the same contents as x, y, z wired by $parent; both equal the explicit base-first MergeDocument fold (outputs and error status)"},
 			{Pkg: "bkl", Func: "HarnessC03_missing", Tiers: "qt", Covers: []string{"missing.checked"},
 				Bound: "any one non-top layer of a 2-3 layer chain missing; a $parent naming no file"},
 			{Pkg: "bkl", Func: "HarnessC03_parentforms", Tiers: "qt", Samples: 16, Covers: []string{"forms.none", "forms.list", "forms.wildcard", "forms.invalid"},
